@@ -480,7 +480,7 @@ theorem resolve_selects (n : Nat) (sp : Spec) (m : Mask) (h : resolve n sp = som
     | zero => simp [Jinns.Holds.specSelects]
     | succ i =>
       have : i < n := by omega
-      simp [Jinns.Holds.specSelects, List.getD_eq_getElem?_getD, List.getElem?_replicate, this]
+      simp [Jinns.Holds.specSelects, List.getD_eq_getElem?_getD, this]
   | str s =>
     simp only [resolve] at h
     by_cases h1 : s = "both"
@@ -491,7 +491,7 @@ theorem resolve_selects (n : Nat) (sp : Spec) (m : Mask) (h : resolve n sp = som
       | zero => simp [Jinns.Holds.specSelects]
       | succ i =>
         have : i < n := by omega
-        simp [Jinns.Holds.specSelects, List.getD_eq_getElem?_getD, List.getElem?_replicate, this]
+        simp [Jinns.Holds.specSelects, List.getD_eq_getElem?_getD, this]
     · by_cases h2 : s = "eq_params"
       · subst h2
         rw [maskOfString_eq_params] at h
@@ -500,7 +500,7 @@ theorem resolve_selects (n : Nat) (sp : Spec) (m : Mask) (h : resolve n sp = som
         | zero => simp [Jinns.Holds.specSelects]
         | succ i =>
           have : i < n := by omega
-          simp [Jinns.Holds.specSelects, List.getD_eq_getElem?_getD, List.getElem?_replicate, this]
+          simp [Jinns.Holds.specSelects, List.getD_eq_getElem?_getD, this]
       · by_cases h3 : s = "nn_params"
         · subst h3
           rw [maskOfString_nn_params] at h
@@ -509,7 +509,7 @@ theorem resolve_selects (n : Nat) (sp : Spec) (m : Mask) (h : resolve n sp = som
           | zero => simp [Jinns.Holds.specSelects]
           | succ i =>
             have : i < n := by omega
-            simp [Jinns.Holds.specSelects, List.getD_eq_getElem?_getD, List.getElem?_replicate, this]
+            simp [Jinns.Holds.specSelects, List.getD_eq_getElem?_getD, this]
         · rw [maskOfString_unknown n s h1 h2 h3] at h; simp at h
 
 theorem allSome_map_some (l : List α) : allSome (l.map some) = some l := by
@@ -605,7 +605,7 @@ theorem liftMask_getD (gmap : List (Option Nat)) (m : Mask) (g : Nat) :
 theorem liftMask_dict_nn (U : Nat) (rest : List (Option Nat)) (m : Mask) (u : Nat) (hu : u < U) :
     (liftMask (List.replicate U (some 0) ++ rest) m).getD u false = m.getD 0 false := by
   rw [liftMask_getD, List.getD_eq_getElem?_getD, List.getElem?_append_left (by simpa using hu)]
-  simp [List.getElem?_replicate, hu]
+  simp [hu]
 
 /-! ### non-vacuity -/
 
@@ -629,7 +629,7 @@ example : totalVal (evalTerms exFam) = 7 := by
 example : SupportedOn 1 [[0, 0], [5], []] := by
   intro i hi x hx
   match i with
-  | 0 => simp at hx; rcases hx with rfl | rfl; rfl; rfl
+  | 0 => simp at hx; exact hx
   | 1 => omega
   | 2 => simp at hx
   | (k + 3) => simp at hx
